@@ -28,6 +28,7 @@ import (
 )
 
 const tagBackupGdt = "ext4-backup-gdt-past-end"
+const tagJournalZero = "ext4-journal-zeroing-ignores-extents"
 
 type e4case struct {
 	cfg    x.Config
@@ -376,6 +377,7 @@ func ext4Cls(c *hx.Ctx, rng *hx.Rng) {
 				checkRange(c, id, fsCase{kind: "ext4", size: cfg.Size, start: cfg.Start, bs: 512, script: k.script}, d, before, "create refused: "+err.Error())
 				return
 			}
+			createLen := len(d.Log)
 			deadline := time.Now().Add(time.Duration(c.N(6, 45)) * time.Second)
 			ops := 0
 			func() {
@@ -405,14 +407,27 @@ func ext4Cls(c *hx.Ctx, rng *hx.Rng) {
 			c.Distinct("ext4cls|" + cfg.String() + "|" + k.script)
 			c.Sample(fmt.Sprintf("%s ops=%d writes=%d data=%d inode=%d bbm=%d", desc, ops, len(d.Log), counts["data"], counts["inode"], counts["bbm"]))
 			var problems []string
+			tag := ""
 			if counts["out"] > 0 {
 				var ex []string
-				for _, e := range d.Log {
-					if !e.Sync && l.classify(e.Off-cfg.Start, int64(e.Len)) == "out" && len(ex) < 4 {
+				journalZero := x.On(cfg.Journal, true)
+				for i, e := range d.Log {
+					if e.Sync || l.classify(e.Off-cfg.Start, int64(e.Len)) != "out" {
+						continue
+					}
+					if len(ex) < 4 {
 						ex = append(ex, fmt.Sprintf("[%d,%d)", e.Off-cfg.Start, e.Off-cfg.Start+int64(e.Len)))
 					}
+					// finding ext4-journal-zeroing-ignores-extents: a chunk of zeros of at most 1 MiB written by Create (initJournal),
+					// inside the volume, running over blocks that are not the journal's
+					if !(i < createLen && e.Len <= 1<<20 && e.Off-cfg.Start+int64(e.Len) <= int64(v.BlocksCount)*l.bs && allZero(e.Data)) {
+						journalZero = false
+					}
 				}
-				problems = append(problems, fmt.Sprintf("%d WriteAt(s) belong to no structure of the volume (not a superblock/GDT copy, bitmap, inode table slot or data block run below the block count): %v", counts["out"], ex))
+				if journalZero {
+					tag = tagJournalZero
+				}
+				problems = append(problems, fmt.Sprintf("%d WriteAt(s) belong to no structure of the volume (not a superblock/GDT copy, bitmap, inode table slot or a run of data blocks below the block count: they run over metadata blocks): %v", counts["out"], ex))
 			}
 			bad, checked := e4ownership(cfg, d, l)
 			c.StatN("ext4cls.owned-blocks-checked", checked)
@@ -424,7 +439,10 @@ func ext4Cls(c *hx.Ctx, rng *hx.Rng) {
 				problems = append(problems, fmt.Sprintf("guard byte at %d changed", off))
 			}
 			if len(problems) > 0 {
-				c.Fail(id, e4tag(cfg, d, l), strings.Join(problems, "; "), desc)
+				if t := e4tag(cfg, d, l); t != "-" || tag == "" || len(problems) > 1 {
+					tag = t
+				}
+				c.Fail(id, tag, strings.Join(problems, "; "), desc)
 				return
 			}
 			c.OK(id)
@@ -503,3 +521,15 @@ func e4gdtReplay(c *hx.Ctx) {
 }
 
 var _ = sort.Ints
+
+func allZero(b []byte) bool {
+	if b == nil {
+		return false
+	}
+	for _, x := range b {
+		if x != 0 {
+			return false
+		}
+	}
+	return true
+}
